@@ -7,6 +7,17 @@ D=$V/build/ml_$X
 rm -rf $D && mkdir -p $D && cd $D
 if [ "$X" = m ]; then EX=Extract; else EX=ExtractGen; fi
 timeout 600 coqc -Q $V/coq HV $V/coq/Extract/$EX.v > extract.log 2>&1 || { cat extract.log; exit 1; }
+# Performance only (semantics-preserving): the extracted py_format_d recomputes 10^4300 at every call;
+# hoist that closed subexpression into a top-level constant evaluated once.
+python3 - <<'PY'
+import re
+s = open("Py.ml").read()
+m = re.search(r"let py_format_d n =\n  if Z\.leb\n(\s+\(Z\.pow .*?\)\)\)) \(Z\.abs n\)", s, re.S)
+if m:
+    const = m.group(1).strip()
+    s = s.replace(m.group(0), "let fmt_limit_ = " + const + "\n\nlet py_format_d n =\n  if Z.leb fmt_limit_ (Z.abs n)")
+    open("Py.ml", "w").write(s)
+PY
 cp $V/corr/common.ml $V/corr/driver_$X.ml .
 ORDER=$(ocamlfind ocamldep -sort *.mli *.ml)
 timeout 600 ocamlfind ocamlopt -w -a -O2 -o driver $ORDER 2>/dev/null || timeout 600 ocamlfind ocamlopt -w -a -o driver $ORDER
